@@ -40,6 +40,7 @@ func val(x interface{}, class string) Val { return Val{reflect.ValueOf(x), class
 func init() {
 	hio.Register((*Tagged)(nil))
 	hio.Register((*Derived)(nil))
+	hio.Register((*Deep)(nil))
 	hio.Register((*Widths)(nil))
 	hio.Register((*Node2)(nil))
 }
@@ -84,6 +85,21 @@ type Derived struct {
 	Base
 	*Extra
 	Own bool
+}
+
+// Mid embeds Base between two fields of its own (the embedded struct does not start at offset 0).
+type Mid struct {
+	A int8
+	Base
+	B string
+}
+
+// Deep embeds Mid, again not at offset 0, next to a pointer and a slice.
+type Deep struct {
+	F float64
+	P *int
+	Mid
+	L []string
 }
 
 // Extra is embedded by pointer.
@@ -544,6 +560,8 @@ func Fixed() []Gen {
 		{Name: "Plain", T: reflect.TypeOf(Plain{}), Vals: []Val{val(Plain{}, "zero"), val(Plain{1, "x", 1.5}, "filled")}, Leaf: "struct"},
 		{Name: "Tagged", T: reflect.TypeOf(Tagged{}), Vals: []Val{val(Tagged{}, "zero"), val(Tagged{"n", 3, 0, 0, &one}, "filled")}, Leaf: "struct"},
 		{Name: "Derived", T: reflect.TypeOf(Derived{}), Vals: []Val{val(Derived{}, "zero"), val(Derived{Base{1, "t"}, &Extra{"note"}, true}, "filled")}, Leaf: "struct"},
+		{Name: "Mid", T: reflect.TypeOf(Mid{}), Vals: []Val{val(Mid{}, "zero"), val(Mid{-3, Base{7, "tag"}, "b"}, "filled")}, Leaf: "struct"},
+		{Name: "Deep", T: reflect.TypeOf(Deep{}), Vals: []Val{val(Deep{}, "zero"), val(Deep{1.5, &one, Mid{4, Base{9, "deep"}, "bb"}, []string{"l", "l"}}, "filled")}, Leaf: "struct"},
 		{Name: "Widths", T: reflect.TypeOf(Widths{}), Vals: []Val{val(Widths{}, "zero"),
 			val(Widths{-8, -16, -32, -64, -1, 200, 60000, 4000000000, math.MaxUint64, 77, 1.5, 2.5, true, "x",
 				&i8, &i16, &i32, &i64, &i, &u8, &u16, &u32, &u64, &u, &f32, &f64, &b, &s}, "filled")}, Leaf: "struct"},
